@@ -48,6 +48,12 @@ type part struct {
 	env     [2][]string
 	bins    []string
 	tags    string
+	// fuzz: name of a native fuzz target (func FuzzX(f *testing.F)); the part first runs
+	// `go test -fuzz` for fuzztime (coverage-guided, cannot be seeded), then re-runs the seed
+	// corpus plus every crasher the campaign saved, in-process, so that a crasher becomes an
+	// ordinary recorded violation with a replay file. Thorough tier only (fuzztime 0 = skip).
+	fuzz     string
+	fuzztime [2]time.Duration
 }
 
 type property struct {
@@ -141,6 +147,8 @@ type shardResult struct {
 	shard  *ev.Shard
 	failf  string
 	checks int
+	fuzzExecs int64
+	fuzzNote  string
 }
 
 var passedRe = regexp.MustCompile(`OK, passed (\d+) tests`)
@@ -308,6 +316,35 @@ func run(prop *property, tier int, tierName string, seed int64, replay, scratch 
 				if to == 0 {
 					to = 10 * time.Minute
 				}
+				var fuzzExecs int64
+				fuzzNote := ""
+				if p.fuzz != "" && replay == "" {
+					ft := p.fuzztime[tier]
+					if ft <= 0 {
+						return
+					}
+					fctx, fcancel := context.WithTimeout(context.Background(), ft+5*time.Minute)
+					fargs := []string{"-test.run", "^$", "-test.fuzz", "^" + p.fuzz + "$", "-test.fuzztime", ft.String(),
+						"-test.fuzzcachedir", filepath.Join(dir, "fuzzcache"), "-test.parallel", "8", "-test.timeout", (ft + 4*time.Minute).String()}
+					fcmd := exec.CommandContext(fctx, bin, fargs...)
+					fcmd.Dir = dir
+					fenv := baseEnv()
+					fenv = append(fenv, "VERIF_TIER="+tierName, "VERIF_SCRATCH="+filepath.Join(dir, "scratch-fuzz"), "VERIF_BIN="+binDir, "VERIF_PART="+p.name, "VERIF_FUZZING=1")
+					fenv = append(fenv, p.env[tier]...)
+					fcmd.Env = fenv
+					var fout bytes.Buffer
+					fcmd.Stdout, fcmd.Stderr = &fout, &fout
+					ferr := fcmd.Run()
+					fcancel()
+					if m := regexp.MustCompile(`execs: (\d+)`).FindAllStringSubmatch(fout.String(), -1); len(m) > 0 {
+						fuzzExecs, _ = strconv.ParseInt(m[len(m)-1][1], 10, 64)
+					}
+					if ferr != nil {
+						fuzzNote = "native fuzzing stopped with a failing input (re-run below): " + lastLines(fout.String(), 6)
+					}
+					os.RemoveAll(filepath.Join(dir, "fuzzcache"))
+					p.run = "^" + p.fuzz + "$"
+				}
 				args := []string{"-test.run", p.run, "-test.v", "-test.timeout", (to + 30*time.Second).String(),
 					"-rapid.seed", strconv.FormatInt(rseed, 10),
 					"-rapid.failfile", failFile, "-rapid.nofailfile=false"}
@@ -348,7 +385,7 @@ func run(prop *property, tier int, tierName string, seed int64, replay, scratch 
 				cmd.Stdout = &out
 				cmd.Stderr = &out
 				err := cmd.Run()
-				r := &shardResult{part: p.name, idx: k, out: out.String(), checks: p.checks[tier]}
+				r := &shardResult{part: p.name, idx: k, out: out.String(), checks: p.checks[tier], fuzzExecs: fuzzExecs, fuzzNote: fuzzNote}
 				if err != nil {
 					r.exit = 1
 					if ee, ok := err.(*exec.ExitError); ok {
@@ -424,6 +461,14 @@ func run(prop *property, tier int, tierName string, seed int64, replay, scratch 
 			continue
 		}
 		s := r.shard
+		if r.fuzzExecs > 0 {
+			extra["native_fuzz_execs"] += r.fuzzExecs
+			evals += r.fuzzExecs
+			ps.Evaluations += r.fuzzExecs
+		}
+		if r.fuzzNote != "" {
+			notes = append(notes, r.fuzzNote)
+		}
 		ps.Evaluations += s.Evaluations
 		evals += s.Evaluations
 		ntTotal += s.NonTrivialN
@@ -591,6 +636,14 @@ func saveLog(id string, r *shardResult) {
 		out = out[:100000] + "\n…\n" + out[len(out)-100000:]
 	}
 	os.WriteFile(filepath.Join(dir, fmt.Sprintf("%s-%d.log", r.part, r.idx)), []byte(out), 0o644)
+}
+
+func lastLines(s string, n int) string {
+	lines := strings.Split(strings.TrimSpace(s), "\n")
+	if len(lines) > n {
+		lines = lines[len(lines)-n:]
+	}
+	return strings.Join(lines, " | ")
 }
 
 func firstLines(s string, n int) string {
